@@ -45,3 +45,15 @@ Fixpoint run_dump (top : Z) (h : heap Z) (ops : list (@op Z)) : list Z :=
 
 Definition run_heap (size pol top : Z) (ops : list Z) : list Z :=
   run_dump top (h_init top (zn size) (pol_of pol)) (ops_of ops (length ops)).
+
+(* Large histories: only the answer of every operation, then the full state once at the end. *)
+Fixpoint run_codes (top : Z) (h : heap Z) (ops : list (@op Z)) : list Z * heap Z :=
+  match ops with
+  | [] => ([], h)
+  | o :: os => let '(h1, r) := step Z.ltb top h o in
+               let '(cs, hf) := run_codes top h1 os in (out_code r :: cs, hf)
+  end.
+
+Definition run_heap_lite (size pol top : Z) (ops : list Z) : list Z :=
+  let '(cs, hf) := run_codes top (h_init top (zn size) (pol_of pol)) (ops_of ops (length ops)) in
+  cs ++ dump_heap hf.
